@@ -139,7 +139,7 @@ def ty(e, env):
     if k == "idx":
         return 32, True
     if k == "lit":
-        return 32, True
+        return max(32, e[1].bit_length() + 1), True        # a Python int: signed, 32 bits unless the value needs more
     if k == "ulit":
         return e[2], False
     if k == "slit":
@@ -199,7 +199,7 @@ def ev(e, env, ctx=0):
     if k == "idx":
         return z3.BitVecVal(env.itvars[e[1]][1], max(32, ctx))
     if k == "lit":
-        return z3.BitVecVal(e[1], max(32, ctx))
+        return z3.BitVecVal(e[1], max(32, e[1].bit_length() + 1, ctx))
     if k in ("ulit", "slit"):
         return z3.BitVecVal(e[1], max(e[2], ctx))
     if k == "enum":
@@ -230,12 +230,12 @@ def ev(e, env, ctx=0):
         return ~ev(e[1], env, ctx)
     if k in ("in", "notin"):
         x = in_items_expr(e[1], e[2])
-        r = truth(x, env) if x is not None else z3.BoolVal(True)
+        r = truth(x, env) if x is not None else z3.BoolVal(False)      # nothing is a member of an empty collection
         return b2v(r if k == "in" else z3.Not(r))
     if k in ("in_rl", "notin_rl"):
         rl = env.node(env.abspath(e[2]))
         x = in_items_expr(e[1], rl["items"])
-        r = truth(x, env) if x is not None else z3.BoolVal(True)
+        r = truth(x, env) if x is not None else z3.BoolVal(False)
         return b2v(r if k == "in_rl" else z3.Not(r))
     if k in ("in_list", "notin_list"):
         lp = env.abspath(e[2])
@@ -243,7 +243,7 @@ def ev(e, env, ctx=0):
         terms = []
         for i in range(len(lst["elems"])):
             terms.append(z3.And(size_guard(env, lp, i), truth(["==", e[1], ["f", list(e[2]) + [i]]], env)))
-        r = z3.Or(*terms) if terms else z3.BoolVal(False if lst.get("size_used") else True)
+        r = z3.Or(*terms) if terms else z3.BoolVal(False)
         return b2v(r if k == "in_list" else z3.Not(r))
     if k == "sum":
         lp = env.abspath(e[1])
